@@ -241,6 +241,18 @@ func (e *Engine) VerifyFunction(key string) (res *FnResult) {
 			// later postconditions may rely on earlier ones (each is reported on its own if it fails)
 			fr.obligeClause(chain, "ensures", f.And(parts...), en, fmt.Sprintf("postcondition %d", k))
 		}
+		if recvNowPtr {
+			// the contract was written for a value receiver, which cannot modify the caller's object
+			if ptr, ok := args[0].(*Term); ok {
+				pt := fn.Params[0].Type().Underlying().(*types.Pointer).Elem()
+				si := c.structInfoOf(pt)
+				var parts []*Term
+				for _, r := range fr.rets {
+					parts = append(parts, f.Implies(r.st.R, f.Eq(c.loadStruct(r.st, si, ptr), c.loadStruct(entry, si, ptr))))
+				}
+				c.oblige(chain, "frame", f.And(parts...), c.e.pos(fn.Pos()), "the contract is for a value receiver: the receiver object is unchanged on return")
+			}
+		}
 	} else {
 		c.note("no return is reachable")
 	}
